@@ -51,12 +51,13 @@ LinkSlot(p, tg) == IF tg = <<"-">> THEN <<>> ELSE (p :> LinkNode(tg))
 
 \* ---- safety universe: link shapes x special files x odd modes ----
 TL == { <<"..","cw","rl","..","ef">>, <<"..">>, <<"..","cw","ext","zz">>, <<"..","ext">>, <<"..","ext","s">>, <<"..","ext","x">>, <<"..","srcx">>, <<"..","srcx","f">>, <<"s">>, <<"f">>, <<"nowhere">>,
-        <<"..","fifo">>, <<"..","la">>, <<"","A","src","f">>, <<"","A","ef">>, <<"..","..","A","ext">>, <<"s","..","..","ef">>, <<"..","ef">> }
-TK == { <<"..","ext2">>, <<".">>, <<"..","src","f">>, <<"x">>, <<"..","ef">>, <<"","A","ext","x">> }
+        <<"..","fifo">>, <<"..","la">>, <<"","A","src","f">>, <<"","A","ef">>, <<"..","..","A","ext">>, <<"s","..","..","ef">>, <<"..","ef">>, <<"..","ext","k">> }
+TK == { <<"s">>, <<"..","ext2">>, <<".">>, <<"..","src","f">>, <<"x">>, <<"..","ef">>, <<"","A","ext","x">> }
 TK2 == { <<"..","..","src","f">>, <<"y">>, <<"..","..","ext2">> }      \* a link at ext/s/k: one level deeper than where it lands in the archive
 TM == { <<"..","f">>, <<"..","..">>, <<"..","..","src","f">>, <<"..","..","ext">>, <<"..","..","srcx","f">>, <<"..">>, <<"g">> }
-TLq == { <<"..","cw","rl","..","ef">>, <<"..">>, <<"..","cw","ext","zz">>, <<"..","ext">>, <<"..","ext","s">>, <<"..","ext","x">>, <<"..","srcx","f">>, <<"s">>, <<"nowhere">>, <<"..","fifo">>, <<"..","la">>, <<"","A","src","f">>, <<"","A","ef">> }
-TKq == { <<"..","ext2">>, <<".">>, <<"x">>, <<"","A","ext","x">> }
+TLq == { <<"..","cw","rl","..","ef">>, <<"..">>, <<"..","cw","ext","zz">>, <<"..","ext">>, <<"..","ext","s">>, <<"..","ext","x">>, <<"..","srcx","f">>, <<"s">>, <<"nowhere">>, <<"..","fifo">>, <<"..","la">>, <<"","A","src","f">>, <<"","A","ef">>, <<"..","ext","k">> }
+\* l -> ../ext/k -> s: the second hop of a chain is relative to the directory of the second link (ext/s, not src/s)
+TKq == { <<"s">>, <<"..","ext2">>, <<".">>, <<"x">>, <<"","A","ext","x">> }
 TMq == { <<"..","f">>, <<"..","..">>, <<"..","..","src","f">>, <<"..","..","ext">>, <<"..">> }
 
 TreeCore(tf, md, zm) ==
